@@ -2347,3 +2347,8 @@ LEVEL_NOTE = ('proof for the host-level subset (index/count/size/radix/char-code
 from props import c12x as _ext  # noqa: E402  pylint: disable=wrong-import-position
 _ext.EXTRA_ROOTS = ['Drv.C12X']
 fw.attach_extension(globals(), _ext)
+
+# extension: host-level model of 21 more functions and the history theorem (DESIGN 13.9)
+from props import c12y as _ext2  # noqa: E402  pylint: disable=wrong-import-position
+_ext2.EXTRA_ROOTS = ['Drv.C12Y']
+fw.attach_extension(globals(), _ext2)
